@@ -411,14 +411,31 @@ def check_reused_formatter(seed, idx, rec, case):
             return
     if rng.random() < 0.5:
         pair.reverse()
-    shared = Rst(Representation(FullTableRepresenter(), verb))
+    # the verbosity is either one level or a function of the result (then
+    # each result asks for its own level)
+    levels = [verb] * 2
+    shared_verb = verb
+    if rng.random() < 0.4:
+        levels = [rng.choice([Verbosity.SILENT, Verbosity.SUMMARY,
+                              Verbosity.DEFAULT, Verbosity.FULL_DETAILS])
+                  for _ in pair]
+        wanted = {id(res): lev for res, lev in zip(pair, levels)}
+        shared_verb = lambda res: wanted[id(res)]   # noqa: E731
+        rec.count('reused_formatter_with_a_verbosity_function')
+    shared = Rst(Representation(FullTableRepresenter(), shared_verb))
     for step, res in enumerate(pair + pair[:1]):
         if step == 2:
             shared.clear()
         text = '\n'.join(shared.format_result(res))
         fresh = '\n'.join(Rst(Representation(
-            FullTableRepresenter(), verb)).format_result(res))
+            FullTableRepresenter(), levels[step % 2])).format_result(res))
         rec.count('reused_formatter_checks')
+        if callable(shared_verb) and not fresh:
+            # nothing to show at this level: with a verbosity function the
+            # formatter still emits the anchor and the description of the
+            # test (no table, no mark), with a fixed level nothing at all --
+            # both are fine for the statement
+            continue
         if text != fresh:
             doc, _ = rstback.parse(text)
             marks = rstback.marks(doc) if doc is not None else []
